@@ -364,6 +364,12 @@ def wf (f : UPFields) : Bool := decide (f.id < U64)
 def preimage (f : UPFields) : Bytes := f.bytecode ++ be8 f.id
 def signBytes (H : Hash) (f : UPFields) : Nat := digest H (preimage f)
 
+/-- what is DELIVERED for a compass deployment (`UploadSmartContract.VerifyAgainstTX`): the data of
+    a plain contract-creation transaction, `bytecode ++ constructor input` (the constructor input
+    after the Unpack / Pack round trip through the stored ABI; `[]` when the message has none).
+    The constructor input carries the new compass id, the valset and the fee manager. -/
+def delivered (f : UPFields) (ctor : Bytes) : Bytes := f.bytecode ++ ctor
+
 end UP
 
 /-! ## skyway batch (`GetCheckpoint`) -/
@@ -396,6 +402,16 @@ def signedVals (f : BatchFields) : List V :=
    .word f.timeout, .word f.relayer, .word (effEstimate f.estimate)]
 def preimage (f : BatchFields) : Bytes := selBatchCall ++ encodeArgs signedTys (signedVals f)
 def signBytes (H : Hash) (f : BatchFields) : Nat := digest H (preimage f)
+
+/-- compass `submit_batch(consensus, token, args, batch_id, deadline, relayer, gas_estimate)` minus
+    the consensus (compass ABI: x/evm/keeper/testdata/sample-abi.json).  The call itself is built
+    by the relayer (pigeon), not by /repo; relayers are only offered batches whose estimate has
+    been elected (`batchOffered` below), and are handed `GasEstimate` as stored. -/
+def deliveredTys : List Ty :=
+  [.address, .tuple [.array .address, .array .uint256], .uint256, .uint256, .address, .uint256]
+def deliveredVals (f : BatchFields) : List V :=
+  [.word f.token, .seq [words f.receivers, words f.amounts], .word f.nonce, .word f.timeout,
+   .word f.relayer, .word f.estimate]
 
 def mustBind (f : BatchFields) : List V :=
   [.word f.token,                   -- batch token
@@ -519,11 +535,201 @@ def goBatchCheckpoint (H : Hash) (turnstone : Bytes) (b : GoBatch) : Option Nat 
   else if b.amounts.any (fun a => decide (a < 0)) then none
   else some (Batch.signBytes H (batchFields turnstone b))
 
+/-! ## Go level: signable items, their pre-images, and what is delivered for them
+
+Everything below is a re-statement of `goSignBytes` / `goBatchCheckpoint` and of the argument
+lists of `VerifyAgainstTX` in a form theorems can talk about: one type of signable item
+(turnstone message or skyway batch), its kind, the byte string that is hashed (`none` on the
+panic / rejected branches), the values the remote side is handed.  `Props/C05.lean` proves
+`goSignBytes` / `goBatchCheckpoint` equal to `goItemDigest` on every branch. -/
+
+inductive Kind where
+  | uv | slc | up | usc | ch | batch
+deriving Repr, DecidableEq, Inhabited
+
+def GoAction.kind (a : GoAction) : Kind :=
+  match a with
+  | .updateValset _ => .uv
+  | .submitLogicCall _ _ _ _ _ => .slc
+  | .uploadSmartContract _ => .up
+  | .uploadUserSmartContract _ _ _ _ _ => .usc
+  | .compassHandover _ _ => .ch
+
+/-- the 4-byte method id the signed pre-image of a kind starts with; `UploadSmartContract` is
+    not an ABI scheme and has none -/
+def kindSel (k : Kind) : Bytes :=
+  match k with
+  | .uv => selUpdateValset
+  | .slc => selLogicCall
+  | .up => []
+  | .usc => selDeployContract
+  | .ch => selCompassUpdateBatch
+  | .batch => selBatchCall
+
+/-- all method ids that start a hashed ABI pre-image (the five signed schemes and the inner
+    valset checkpoint) -/
+def schemeSelectors : List Bytes :=
+  [selCheckpoint, selUpdateValset, selLogicCall, selCompassUpdateBatch, selDeployContract, selBatchCall]
+
+/-- A signable item.  `ctor` is `UploadSmartContract.ConstructorInput` (after the ABI round trip
+    of `VerifyAgainstTX`); only an `uploadSmartContract` action has one, the signing side never
+    reads it, which is why `GoAction.uploadSmartContract` does not carry it. -/
+inductive GoItem where
+  | msg (m : GoMsg) (ctor : Bytes)
+  | batch (turnstone : Bytes) (b : GoBatch)
+deriving Repr, Inhabited
+
+def GoItem.kind (it : GoItem) : Kind :=
+  match it with
+  | .msg m _ => m.action.kind
+  | .batch _ _ => .batch
+
+/-- `ToInternal` accepts the batch (the four checks of `goBatchCheckpoint`, in one) -/
+def batchValid (b : GoBatch) : Bool :=
+  validEthAddress b.token && b.dests.all validEthAddress && b.tokenOfTx.all validEthAddress &&
+  !(b.amounts.any (fun a => decide (a < 0)))
+
+/-- the byte string `Keccak256WithSignedMessage` hashes; `none` = it panics -/
+def goPreimage (H : Hash) (m : GoMsg) : Option Bytes :=
+  match m.action with
+  | .updateValset vs => some (UV.preimage H (uvFields m vs))
+  | .submitLogicCall c p fe s d =>
+    match padSender s with
+    | none => none
+    | some snd => some (SLC.preimage (slcFields m c p fe snd d))
+  | .uploadSmartContract bc => some (UP.preimage { bytecode := bc, id := m.id })
+  | .uploadUserSmartContract dep bc fe s d =>
+    match padSender s with
+    | none => none
+    | some snd => some (USC.preimage (uscFields m dep bc fe snd d))
+  | .compassHandover cs d => some (CH.preimage (chFields m cs d))
+
+/-- the byte string that is hashed for an item; `none` = panic (message) / rejected (batch) -/
+def goItemPreimage (H : Hash) (it : GoItem) : Option Bytes :=
+  match it with
+  | .msg m _ => goPreimage H m
+  | .batch ts b => if batchValid b then some (Batch.preimage (batchFields ts b)) else none
+
+/-- the digest validators are asked to sign -/
+def goItemDigest (H : Hash) (it : GoItem) : Option Nat :=
+  match goItemPreimage H it with
+  | none => none
+  | some p => some (digest H p)
+
+/-- the inner pre-image of an `UpdateValset` (its digest is the first signed argument) -/
+def goCheckpointPre (it : GoItem) : Option Bytes :=
+  match it with
+  | .msg m _ =>
+    match m.action with
+    | .updateValset vs => some (UV.checkpointPre (uvFields m vs))
+    | _ => none
+  | .batch _ _ => none
+
+/-- the values of the property text, per kind (`mustBind` of the converted fields); `none` on the
+    panic / rejected branch -/
+def goItemBound (it : GoItem) : Option (List V) :=
+  match it with
+  | .msg m _ =>
+    match m.action with
+    | .updateValset vs => some (UV.mustBind (uvFields m vs))
+    | .submitLogicCall c p fe s d =>
+      match padSender s with
+      | none => none
+      | some snd => some (SLC.mustBind (slcFields m c p fe snd d))
+    | .uploadSmartContract bc => some [.bytes bc, .word m.id]
+    | .uploadUserSmartContract dep bc fe s d =>
+      match padSender s with
+      | none => none
+      | some snd => some (USC.mustBind (uscFields m dep bc fe snd d))
+    | .compassHandover cs d => some (CH.mustBind (chFields m cs d))
+  | .batch ts b => if batchValid b then some (Batch.mustBind (batchFields ts b)) else none
+
+/-- what the remote side is handed when the item is delivered -/
+inductive Delivered where
+  | call (k : Kind) (args : List V)   -- compass method of that kind, arguments after the consensus
+  | create (data : Bytes)             -- contract-creation transaction data
+deriving Repr, Inhabited
+
+/-- the argument lists of `VerifyAgainstTX` (`x/evm/types/eth_txable.go`; it panics on the same
+    over-long sender as the signing side) and of compass `submit_batch` -/
+def goItemDelivered (it : GoItem) : Option Delivered :=
+  match it with
+  | .msg m ctor =>
+    match m.action with
+    | .updateValset vs => some (.call .uv (UV.deliveredVals (uvFields m vs)))
+    | .submitLogicCall c p fe s d =>
+      match padSender s with
+      | none => none
+      | some snd => some (.call .slc (SLC.deliveredVals (slcFields m c p fe snd d)))
+    | .uploadSmartContract bc => some (.create (UP.delivered { bytecode := bc, id := m.id } ctor))
+    | .uploadUserSmartContract dep bc fe s d =>
+      match padSender s with
+      | none => none
+      | some snd => some (.call .usc (USC.deliveredVals (uscFields m dep bc fe snd d)))
+    | .compassHandover cs d => some (.call .ch (CH.deliveredVals (chFields m cs d)))
+  | .batch ts b =>
+    if batchValid b then some (.call .batch (Batch.deliveredVals (batchFields ts b))) else none
+
+/-- SIDE CONDITION on `UploadSmartContract` items: the hashed string `bytecode ++ be64(id)` does
+    not start with the method id of an ABI scheme.  (The bytecode is fixed by a governance
+    proposal; nothing in /repo checks this.)  Trivially true for every other kind. -/
+def upSafe (it : GoItem) : Bool :=
+  match it with
+  | .msg m _ =>
+    match m.action with
+    | .uploadSmartContract bc => !(schemeSelectors.contains ((bc ++ be8 m.id).take 4))
+    | _ => true
+  | .batch _ _ => true
+
+/-- ranges the Go types guarantee: `uint64` ids / estimates / powers / nonces, `uint64` fees,
+    `sdkmath.Int` amounts below 2^256, slice lengths below 2^256 -/
+def goItemWf (it : GoItem) : Bool :=
+  match it with
+  | .msg m _ =>
+    decide (m.id < U64) && decide (m.estimate < U64) &&
+    match m.action with
+    | .updateValset vs =>
+      vs.powers.all (fun p => decide (p < U64)) && decide (vs.valsetId < U64) &&
+      decide (vs.validators.length < W256) && decide (vs.powers.length < W256)
+    | .submitLogicCall _ p fe _ _ => feesWf fe && decide (p.length < W256)
+    | .uploadSmartContract _ => true
+    | .uploadUserSmartContract _ bc fe _ _ => feesWf fe && decide (bc.length < W256)
+    | .compassHandover cs _ =>
+      decide (cs.length < W256) && cs.all (fun c => decide (c.2.length < W256))
+  | .batch _ b =>
+    decide (b.nonce < U64) && decide (b.timeout < U64) && decide (b.estimate < U64) &&
+    b.amounts.all (fun a => decide (a < (W256 : Int))) &&
+    decide (b.dests.length < W256) && decide (b.amounts.length < W256)
+
+/-! ### when is an item offered to relayers -/
+
+/-- `filters.HasGasEstimate` (x/consensus/keeper/filters/has_gas_estimate.go), one of the
+    conjuncts of `GetMessagesForRelaying` -/
+def hasGasEstimate (requireEst : Bool) (est : Nat) : Bool :=
+  if !requireEst then true else decide (est > 0)
+
+/-- skyway `OutgoingTxBatches` query (x/skyway/keeper/grpc_query.go): `if batch.GasEstimate < 1`
+    the batch is skipped -/
+def batchOffered (est : Nat) : Bool := !decide (est < 1)
+
+/-- An item whose delivered call carries a gas estimate is offered to relayers only once the
+    estimate is elected: `UpdateValset` (x/evm/keeper/keeper.go) and `CompassHandover`
+    (x/evm/keeper/smart_contract_deployment.go) are enqueued with `RequireGasEstimation: true`. -/
+def itemOffered (it : GoItem) : Bool :=
+  match it with
+  | .msg m _ =>
+    match m.action with
+    | .updateValset _ => hasGasEstimate true m.estimate
+    | .compassHandover _ _ => hasGasEstimate true m.estimate
+    | _ => true
+  | .batch _ b => batchOffered b.estimate
+
 /-! ## Ids: the consensus queue id counter
 
 One counter (`consensusQueueIDCounterKey`) is shared by every `Queue` of every chain.
-`live` is the set of (queue, id) pairs currently stored; `issued` is a ghost log of every
-fresh id handed out, newest first. -/
+`live` is the set of (queue, id) pairs currently stored; `issued` is a log of every fresh id
+handed out, newest first (not read by any operation; `Props/C05.lean` proves it equal to the ids
+the fresh `Put`s of the history RETURNED, `freshIds` below). -/
 
 structure IdSt where
   counter : Nat := 0
@@ -563,6 +769,28 @@ def idStep (s : IdSt) (op : IdOp) : IdSt × IdRes :=
 def idRun (s : IdSt) : List IdOp → IdSt
   | [] => s
   | op :: ops => idRun (idStep s op).1 ops
+
+/-- the results returned along a run, oldest first -/
+def idTrace (s : IdSt) : List IdOp → List IdRes
+  | [] => []
+  | op :: ops => (idStep s op).2 :: idTrace (idStep s op).1 ops
+
+/-- the id a FRESH `Put` (`MsgIDToReplace = 0`) returned, as a list of length ≤ 1 -/
+def freshOf (op : IdOp) (r : IdRes) : List Nat :=
+  match op with
+  | .put _ rep =>
+    if rep = 0 then
+      match r with
+      | .ok id => [id]
+      | _ => []
+    else []
+  | .remove _ _ => []
+
+/-- the ids RETURNED by the fresh `Put`s of a history, in the order they were returned: a
+    function of the observable results only -/
+def freshIds (s : IdSt) : List IdOp → List Nat
+  | [] => []
+  | op :: ops => freshOf op (idStep s op).2 ++ freshIds (idStep s op).1 ops
 
 /-! ## executable hash -/
 
